@@ -268,7 +268,7 @@ class C03(Profile):
             if th:
                 configs += [[t] for t in TRAITS] + [[]]
             elif rec in robust:
-                configs += [[t] for t in rng.sample(TRAITS, 2)] + [[]]
+                configs += [[t] for t in rng.sample(TRAITS, 1)] + [[]]
             else:
                 configs.append(own_traits(rec))
             configs += cases.trait_subsets(rng, 4 if th else 1)
@@ -282,13 +282,15 @@ class C03(Profile):
             add(rec, rec["program"], list(TRAITS), [], [], "empty")
             add(rec, rec["program"], list(DEFAULT_TRAITS), inn + [["vf_absent_in", 2]], (outp or []) + [["vf_absent_out", 1]], "absent")
         if not th:
-            # half of the other grid programs (stratified, seed-selected) once with all traits on: breadth over shapes
-            rest = [r for r in others if r["id"] not in sel_ids]
-            for rec in pick([dict(r, tag=(r.get("tag") or "").split("#")[0]) for r in rest], len(rest) // 2, rng):
+            # a third of the other grid programs (stratified, seed-selected) once with all traits on: breadth over shapes
+            rest = [dict(r, tag=(r.get("tag") or "").split("#")[0]) for r in others if r["id"] not in sel_ids]
+            xs = [r for r in rest if r.get("grid") == "extra"]  # one program of every class of the extra grids, always
+            once = pick(xs, len({r["tag"] for r in xs}), rng) + pick([r for r in rest if r.get("grid") != "extra"], len(rest) // 5, rng)
+            for rec in once:
                 if rec["id"] not in sel_ids:
                     inn, outp = decl_of(rec)
                     add(rec, rec["program"], list(TRAITS), inn, outp, "exp")
-        for rec, desc, text in mutants_of(corp + grids, 12000 if th else 500, rng):
+        for rec, desc, text in mutants_of(corp + grids, 12000 if th else 400, rng):
             inn = cases.explicit_in(text, rec.get("in"))
             outp = rec.get("out") if rec.get("out") is not None else [list(p) for p in cases.head_preds(text)]
             tr = rng.choice([list(DEFAULT_TRAITS), list(TRAITS), own_traits(rec)] + cases.trait_subsets(rng, 1))
